@@ -10,7 +10,7 @@ from checks.common import swarm
 ID = 'C03'
 LEVEL = 'exploration'
 NEEDS = ('threads',)
-QUICK = dict(runs=12000, wall=80)
+QUICK = dict(runs=36000, wall=85)
 THOROUGH = dict(runs=600000, wall=1200)
 RULE = ('program = 1..6 operators drawn type-directed from {map, filter, filter_exceptions, peek, head, tail, batch, unbatch, groupby, '
         'accumulate, buffer, parmap, shuffle} with boundary parameters (1, len, len+1); input = 0..20 ints, optionally with exception '
